@@ -96,6 +96,30 @@ CLAIMED = {
         note="The period is reported, not judged. Integrity of the old file under a concurrent insert is covered as the RuntimeError failure class of the dump together with C12-R1/R3.",
         ref="DESIGN.md section 4 C15",
     ),
+    "C16": dict(
+        technique="lockset scan of the shared connection fields, load counting and trace predicates over all abstract paths of Transport.send / Transport.disconnect, access-kind scan of the job queue",
+        text="Discipline clauses that make every interleaving safe: the fields Transport.protocol and <protocol>.transport are written by the reader thread without the sender's lock (racy), so in send and disconnect each of them must be loaded at most once per path (snapshot into locals), also inside the error handler; every path of send performs at most one write, whose OSError is caught, followed by exactly one close and one reconnect trigger and no retry; nothing escapes send; disconnect clears the protocol on every path; the job queue is append / popleft only with the pump as single consumer and senders serialised under the transport lock.",
+        note="Real interleavings are not executed; partial writes on a non-blocking socket and fairness are not decided. A-CLOSE: close() of a transport object does not raise.",
+        ref="DESIGN.md section 4 C16",
+    ),
+    "C17": dict(
+        technique="AST template rules tied to the C02 frame template, path analysis of parse_mqtt_to_message (ack level vs QoS facts, prefix comparison, length guard), sibling comparison of the two subscription generators, escape analysis of handle_subscription",
+        text="Structural clauses of the topic mapping: command -> topic renders the five header fields of the frame template with '/', carries the payload separately and returns ack as QoS; every path of topic -> command that yields a command takes the last five levels, stores '1' at the ack level exactly when QoS > 0, appends the payload, joins with ';', and is dominated by a length guard and by equality of the positionally recovered prefix (everything before the last five levels; no first-occurrence search) with the configured inbound prefix; subscription templates have five levels, cover presentation and internal by their numeric values in every version, and the per-child family {set, req} x child + stream x node is generated identically for restored and new children, only after an accepted child presentation; a raising subscribe / publish callback never escapes.",
+        note="Broker-side wildcard semantics, payload fidelity and the value-level round trip are not decided.",
+        ref="DESIGN.md section 4 C17",
+    ),
+    "C18": dict(
+        technique="abstract interpretation of the cooperative __init__ chain of each gateway class with symbolic option values (argument binding along the MRO, dataflow of each option to its destination attribute); keyword extraction at in-repo call sites (cli, examples, README)",
+        text="Option threading: for each of the six gateway classes the whole constructor chain is interpreted with all documented options at once, with none, and with each option alone (frames treat names independently, so this covers every subset): no TypeError is raised (accepted, never forwarded into a frame that has neither the name nor **kwargs) and every option value reaches its destination attribute unchanged (transport timeout / reconnect timeout / prefixes / retain / callbacks, gateway callback / port / baud / server address, persistence object and file, sanitised protocol version); every in-repo constructor call site passes only accepted keywords; the version tables, the selector and the sanitiser call sites have the expected shape.",
+        note="NOT decided: the version-floor rule itself ('2.0.0 means 2.0', '2.3 means 2.2'): it depends on how AwesomeVersion orders strings with different section counts, which is runtime behaviour of a dependency (observed while reading: '2.0.0' selects the 1.5 tables on this tree; outside what a rule over this repository can bound).",
+        ref="DESIGN.md section 4 C18",
+    ),
+    "C20": dict(
+        technique="sibling agreement by path analysis: connection_lost / connection_made resolved through the MRO of every protocol class and interpreted for exc None / set; the four connect loops interpreted with every modelled failure class; AST order rules for stop()",
+        text="For every protocol class, every path of connection_lost calls on_conn_lost(gateway, exc) exactly once when set, triggers the reconnect callback exactly once iff exc is truthy and clears the transport; connection_made calls on_conn_made exactly once; in each of the four connect loops every failing attempt (SerialException, timeout, OSError) sleeps transport.reconnect_timeout and retries, success leaves the loop, nothing but cancellation escapes, the threaded loops re-test transport.protocol and the asyncio loops re-raise CancelledError; both stop() methods disconnect first; the asyncio stop cancels the connect task; send tests the connection first.",
+        note="The two-sided timing guarantee of the TCP watchdog, exactly-once under arbitrary event sequences and a raising user callback on the reader thread are not decided.",
+        ref="DESIGN.md section 4 C20",
+    ),
 }
 
 NOT_APPLICABLE = {
